@@ -44,6 +44,7 @@ def run(ctx):
     truncation_formula(ctx, facts)
     sensitivity_wiring(ctx, facts)
     excluded_share(ctx, facts)
+    padding_counts(ctx, facts)
     ctx.assume("the numerical law of the samplers (probabilities, find_smallest_n, achieved delta) is not decided; rand's Bernoulli/Uniform are trusted")
 
 
@@ -779,3 +780,60 @@ def excluded_share(ctx, facts):
                 okd = (d[0] == "arg" and len(d) == 2 and "Direction" in body.local_ty(d[1])) or (d[0] == "upvar" and len(d) == 2)
                 ctx.ob("SHARE-excluded", f"caller@{body.root.split('::')[-1]}#{n}", okd, "called with the pass's direction to the excluded helper" if okd else f"called with {str(d)[:80]} instead of the pass's direction to the excluded helper", site_of(body, bb))
     ctx.floor("SHARE-excluded", "callers of new_excluding_direction", n, 1)
+
+
+def padding_counts(ctx, facts):
+    """Dummy rows: one draw per cardinality 1..=cap (match-key padding) / per breakdown key 0..B (aggregation padding),
+    the announced total equals the number of rows actually appended (the excluded helper adds that many zero rows and
+    the malicious variant compares the counts)."""
+    from rules.C17 import variant_arms
+    ctx.rule("COUNT-padding: OPRF padding loops over RangeInclusive(1, matchkey_cardinality_cap), draws one sample per cardinality, appends take(sample) groups of repeat_n(row, cardinality) and adds sample * cardinality to the total; aggregation padding loops over 0..B, draws one sample per key, appends exactly `sample` rows carrying that key (loop 0..sample, one row per iteration) and adds sample to the total; the hand-written share of the key puts ZERO on the side of the excluded helper")
+    roots = sorted(p for p in facts.by_root if p.endswith("Paddable>::add_padding_items") and not facts.is_test_path(p))
+    if len(roots) != 2:
+        return ctx.missing("COUNT-padding", "the two Paddable::add_padding_items impls")
+    for root in roots:
+        b = facts.bodies[root]
+        ctx.count(bodies=len(facts.tree(root)))
+        kind = "aggregation" if ", ()>" in root else "oprf"
+        its = [flow.expr_of(b, t["args"][0], max_depth=8) for bb, t in flow.find_calls(b, re.compile(r"IntoIterator::into_iter$"))]
+        smp = flow.find_calls(b, re.compile(r"OPRFPaddingDp::sample$"))
+        tot = None
+        for bb, idx, s in b.iter_assigns():
+            r = s["r"]
+            if r["k"] == "bin" and r["op"].startswith("Add") and len(s["p"]) == 1:
+                e = flow.expr_of(b, {"cp": s["p"]}, max_depth=8)
+                if "OPRFPaddingDp::sample" in str(e) and e[0] == "bin" and e[2][0] == "place":
+                    tot = e
+        if kind == "oprf":
+            okl = len(its) == 1 and its[0][0] == "call" and its[0][1].endswith("RangeInclusive::<Idx>::new") and its[0][2][0] == ("const", 1) and its[0][2][1][0] == "arg" and "cardinality_cap" in str(its[0][2][1][-1])
+            ctx.ob("COUNT-padding", "oprf:every-cardinality-1..=cap", okl and len(smp) == 1, "for cardinality in 1..=matchkey_cardinality_cap, one sample each" if okl and len(smp) == 1 else "the loop over match-key cardinalities is not 1..=cap with one draw each: some cardinality never gets dummy match keys, so its true count is revealed", site_of(b))
+            okt = tot is not None and tot[3][0] == "bin" and tot[3][1] == "Mul" and "OPRFPaddingDp::sample" in str(tot[3][2]) + str(tot[3][3]) and "Iterator::next" in str(tot[3][2]) + str(tot[3][3])
+            tk = flow.find_calls(b, re.compile(r"Iterator::take$"))
+            inner = [x for x in facts.tree(root) if x.kind == "Closure" and flow.find_calls(x, re.compile(r"iter::repeat_n$"))]
+            okr = len(tk) == 1 and "OPRFPaddingDp::sample" in str(flow.expr_of(b, tk[0][1]["args"][1], max_depth=6)) and len(inner) == 1 and flow.expr_of(inner[0], flow.find_calls(inner[0], re.compile(r"iter::repeat_n$"))[0][1]["args"][1], max_depth=4)[-1][0] == "upvar"
+            ctx.ob("COUNT-padding", "oprf:total=rows", okt and okr, "total += sample * cardinality; rows: take(sample) x repeat_n(cardinality)" if okt and okr else "the announced number of dummy rows is not sample * cardinality, or the rows appended are not `sample` groups of `cardinality` copies: the helpers' tables differ in length", site_of(b))
+        else:
+            okl = len(its) == 2 and all(x[0] == "agg" and x[1] == ("std::ops::Range", "Range") and x[2][0] == ("const", 0) for x in its)
+            outer_hi = str(its[0][2][1]) if okl else ""
+            inner_hi = str(its[1][2][1]) if okl else ""
+            okl = okl and ("B/" in outer_hi or "try_from" in outer_hi or "unwrap" in outer_hi) and "OPRFPaddingDp::sample" in inner_hi
+            ctx.ob("COUNT-padding", "aggregation:every-key-0..B-sample-rows-each", okl and len(smp) == 1, "for key in 0..B { sample; for _ in 0..sample { one row } }" if okl and len(smp) == 1 else "aggregation padding does not add `sample` rows for every breakdown key 0..B", site_of(b))
+            okt = tot is not None and "OPRFPaddingDp::sample" in str(tot[3]) and tot[3][0] == "call"
+            ext = flow.find_calls(b, re.compile(r"Extend::extend$"))
+            okr = len(ext) == 1 and flow.expr_of(b, ext[0][1]["args"][1], max_depth=3)[:2] == ("call", "std::iter::once")
+            ctx.ob("COUNT-padding", "aggregation:total=rows", okt and okr, "total += sample; one row appended per inner iteration" if okt and okr else "the announced number of aggregation dummies is not the number of rows appended", site_of(b))
+            # the key's share: ZERO towards the excluded helper
+            dom = b.dominators()
+            arms = variant_arms(b, "helpers::Direction", facts)
+            news = flow.find_calls(b, re.compile(r"ReplicatedSecretSharing::new$"))
+            table = {}
+            if arms:
+                for name, tgt in arms[0][2].items():
+                    for bb, t in news:
+                        if flow.dominates(dom, tgt, bb):
+                            a0, a1 = (flow.expr_of(b, x, max_depth=8) for x in t["args"])
+                            z = lambda x: x[0] == "const" and str(x[1]).endswith("::ZERO")
+                            k = lambda x: "truncate_from" in str(x) and "Iterator::next" in str(x)
+                            table[name] = ("ZERO" if z(a0) else "key" if k(a0) else "?", "ZERO" if z(a1) else "key" if k(a1) else "?")
+            oks = table == {"Left": ("ZERO", "key"), "Right": ("key", "ZERO")}
+            ctx.ob("COUNT-padding", "aggregation:key-share-zero-towards-excluded", oks, "Left => (ZERO, key), Right => (key, ZERO)" if oks else f"the dummy breakdown key is shared as {table}: inconsistent with the other generating helper and the excluded helper's zero row", site_of(b))
